@@ -43,3 +43,19 @@ def levenshtein_neighbors(x: Str, alphabet: Str) -> Seq(Str, "generator"):
             name="post[complete: insertions]", using=["inserting a letter after equal letters equals inserting it before them"])
     # (iii) each exactly once
     ensures(no_duplicates(result), name="post[each once]")
+    # what callers use: the abstract set of one-edit variants over the alphabet (index form above + Lean L-n1)
+    returns(one_edit_set(x, alphabet), assume_only=True)
+
+
+@contract("pyrepseq.distance.hamming_neighbors", props=["C12", "C07"], scope="strings_alphabets_pos")
+def hamming_neighbors(x: Str, alphabet: Str, variable_positions: NoneType) -> Seq(Str, "generator"):
+    requires(distinct_letters(alphabet))
+    raises(None)
+    ensures(forall_in(result, lambda y: exists(TInt, TInt, lambda i, k: (
+        0 <= i and i < len(x) and 0 <= k and k < len(alphabet) and char_at(alphabet, k) != char_at(x, i)
+        and y == sub_at(x, i, char_at(alphabet, k))))), name="post[sound]")
+    ensures(forall(TInt, TInt, lambda i, k: implies(
+        0 <= i and i < len(x) and 0 <= k and k < len(alphabet) and char_at(alphabet, k) != char_at(x, i),
+        member(result, sub_at(x, i, char_at(alphabet, k)), i, k))), name="post[complete]")
+    ensures(no_duplicates(result), name="post[each once]")
+    returns(one_sub_set(x, alphabet), assume_only=True)
